@@ -136,12 +136,20 @@ def sym_vector(dim, system, flavor, tag):
     return SYMCLS[(flavor, dim)](**dict(zip(names, syms))), syms
 
 
-def run_expr(res: Result, op, sa, sb, flavor, tier):
+def run_expr(res: Result, op, sa, sb, flavor, tier, zero_index=None):
+    """zero_index = i: the i-th stored coordinate of the first operand is the exact SymPy number 0 instead of a symbol (a *structural*
+    zero, as in VectorSympy2D(x=x, y=0)); the expression is then evaluated at the alphabet points whose i-th stored coordinate is 0."""
     dimA = len(sa) + 1
     dimB = len(sb) + 1 if sb is not None else None
     case = {"op": op.key, "sysA": list(sa), "sysB": list(sb) if sb else None, "flavor": flavor}
-    cls = f"{op.key}|{L.sysname(sa)}" + (f"|{L.sysname(sb)}" if sb else "") + f"|{flavor}"
+    cls = f"{op.key}|{L.sysname(sa)}" + (f"|{L.sysname(sb)}" if sb else "") + f"|{flavor}" + ("" if zero_index is None else f"|zero[{L.field_names(sa)[zero_index]}]")
     va, syms_a = sym_vector(dimA, sa, flavor, "1")
+    if zero_index is not None:
+        case["zero_index"] = zero_index
+        names_a = L.field_names(sa)
+        coords = [sympy.Integer(0) if i == zero_index else s_ for i, s_ in enumerate(syms_a)]
+        va = SYMCLS[(flavor, dimA)](**dict(zip(names_a, coords)))
+        syms_a = [s_ for i, s_ in enumerate(syms_a) if i != zero_index]
     others, syms_b = [], []
     if sb is not None:
         vb, syms_b = sym_vector(dimB, sb, "generic", "2")
@@ -157,6 +165,10 @@ def run_expr(res: Result, op, sa, sb, flavor, tier):
     allsyms = list(syms_a) + list(syms_b) + list(vals.keys())
     # numeric points
     firsts = regular_vectors(dimA, tier)
+    if zero_index is not None:
+        firsts = [v for v in A.vectors(dimA, "thorough") if v.has("plane") and not v.has("spacelike") and S.stored(v, sa) is not None and S.stored(v, sa)[zero_index] == 0]
+        if not firsts:
+            return
     if sb is None:
         pairs = [(a, None) for a in firsts]
     elif op.name == "isclose":
@@ -196,7 +208,7 @@ def run_expr(res: Result, op, sa, sb, flavor, tier):
         if sta is None or stb is None:
             res.count("operand_not_representable")
             continue
-        args = list(sta) + list(stb) + [mpf(vals[s]) for s in vals]
+        args = [x for i, x in enumerate(sta) if i != zero_index] + list(stb) + [mpf(vals[s]) for s in vals]
         oa = L.build_object(MP_CLASS[(flavor, dimA)], sa, sta)
         ob = L.build_object(MP_CLASS[("generic", dimB)], sb, stb) if b is not None else None
         res.transitions += 2
@@ -343,6 +355,8 @@ def run_shard(shard, tier):
         fl = flavors if (tier == "thorough" or dimB is None) else [flavors[k % len(flavors)]]
         for flavor in fl:
             run_expr(res, op, sa, sb, flavor, tier)
+        for zi in range(len(L.field_names(sa))):
+            run_expr(res, op, sa, sb, fl[0], tier, zero_index=zi)
     res.sample({"op": op.key, "dimA": dimA, "dimB": dimB, "signatures": len(sigs), "points": len(regular_vectors(dimA, tier)), "example_point": list(regular_vectors(dimA, tier)[0].comps)})
     return res
 
@@ -355,5 +369,5 @@ def replay(case):
     op = BY_KEY[case["op"]]
     sa = tuple(case["sysA"])
     sb = tuple(case["sysB"]) if case.get("sysB") else None
-    run_expr(res, op, sa, sb, case["flavor"], "thorough")
+    run_expr(res, op, sa, sb, case["flavor"], "thorough", zero_index=case.get("zero_index"))
     return res
